@@ -135,7 +135,8 @@ get_blocks = Fn(FB, "get_blocks", impl="BitVec", impl_header="BitVec", slot="uti
     requires=[C("spans_fit", "forall|j: int| 0 <= j < self.spans@.len() ==> (#[trigger] self.spans@[j]).offset is Some ==> self.spans@[j].offset->0 + self.spans@[j].size <= usize::MAX", ["C19"])],
     ensures=[
         C("no_empty_block", "forall|k: int| 0 <= k < res@.len() ==> (#[trigger] res@[k]).size > 0", ["C11"]),
-        C("blocks_are_exactly_the_item_bits", "forall|x: nat| #[trigger] blocks_cover(res@, res@.len() as int, x) == spans_cover(%s, self.spans@.len() as int, x)" % SORTED, ["C11"]),
+        C("blocks_are_exactly_the_item_bits", "forall|x: nat| #[trigger] blocks_cover(res@, res@.len() as int, x) == spans_cover(%s, self.spans@.len() as int, x)" % SORTED, ["C11"]),        C("blocks_fit_when_spans_do", "spans_fit8(self.spans@) ==> blocks_fit8(res@)", ["C19"]),
+        C("named", "res@ == spec_blocks(self.spans@)", ["C11"], stub_only=True),
     ],
     rewrites=[SORT, Rewrite("let mut result = Vec::new();", "let mut result: Vec<BitVecBlock> = Vec::new();", rule="R10", why="type ascription: the inserted invariant mentions `result` before inference has fixed its element type")],
     for_to_while=[1],
@@ -143,6 +144,7 @@ get_blocks = Fn(FB, "get_blocks", impl="BitVec", impl_header="BitVec", slot="uti
         C("sorted", VEC(1)),
         C("fits", "forall|j: int| 0 <= j < self.spans@.len() ==> (#[trigger] self.spans@[j]).offset is Some ==> self.spans@[j].offset->0 + self.spans@[j].size <= usize::MAX"),
         C("run_fits", "current_origin is Some ==> current_origin->0 + current_size <= usize::MAX"),
+        C("run_fits8", "spans_fit8(self.spans@) ==> blocks_fit8(result@) && (current_origin is Some ==> current_origin->0 + current_size + 16 <= usize::MAX)"),
         C("no_empty_block", "forall|k: int| 0 <= k < result@.len() ==> (#[trigger] result@[k]).size > 0"),
         C("same_bits_so_far", "forall|x: nat| (blocks_cover(result@, result@.len() as int, x) || run_covers(current_origin, current_size, x)) == #[trigger] spans_cover(%s, verif_next_1 as int, x)" % SORTED),
     ], decreases="verif_vec_1@.len() - verif_next_1",
@@ -150,6 +152,94 @@ get_blocks = Fn(FB, "get_blocks", impl="BitVec", impl_header="BitVec", slot="uti
        body_end=" proof { if result@.len() > blocks0.len() { lemma_blocks_cover_push(blocks0, result@[blocks0.len() as int]); assert(result@ =~= blocks0.push(result@[blocks0.len() as int])); } }")},
     inserts=[Insert("        result\n", "        proof { if result@.len() > blocks_before_last.len() { lemma_blocks_cover_push(blocks_before_last, result@[blocks_before_last.len() as int]); assert(result@ =~= blocks_before_last.push(result@[blocks_before_last.len() as int])); } }\n", where="before"),
              Insert("        if let Some(origin) = current_origin\n        {\n            if current_size != 0\n            {\n                result.push", "        let ghost blocks_before_last = result@;\n", where="before")],
+)
+
+HEXFMT = Rewrite(r'format!\("\{:02X\}", ((?:[^()]|\((?:[^()]|\([^()]*\))*\))*)\)', r'verif_fmt_u64("{:02X}", (\1) as u64)', regex=True, count=None, rule="R22",
+                 why="format! -> wrapper (text an uninterpreted function of literal and argument); the argument is widened with `as u64` so that any unsigned type fits")
+CAPS = [("result", "&mut String", "&mut result"), ("address_unit", "usize", "address_unit")]
+flush = Fn(F, "format_intelhex", impl="util::BitVec", impl_header="BitVec", slot="util", key="BitVec::format_intelhex::flush_bytes", props=["C11", "C03", "C19"],
+    gen_name="verif_closure_flush_bytes",
+    lift={"closure": "flush_bytes", "captures": CAPS, "part": "lifted"},
+    requires=[C("unit_positive", "address_unit > 0", ["C03"]), C("at_most_a_record", "old(accum_bytes)@.len() <= 255", ["C03"])],
+    ensures=[
+        C("buffer_emptied", "final(accum_bytes)@.len() == 0 && *final(accum_index) == read_index", ["C11"]),
+        C("one_record_for_a_nonempty_buffer", "final(result)@ == old(result)@ + (if old(accum_bytes)@.len() > 0 { hex_record(*old(accum_index) as int / address_unit as int, old(accum_bytes)@) } else { Seq::empty() })", ["C11"]),
+    ],
+    rewrites=[HEXFMT,
+              Rewrite("for byte in accum_bytes.iter().copied()", "for verif_ref_byte in it: accum_bytes.iter()", rule="R26", why="`.iter().copied()` (no Verus support for the Copied adapter) -> `.iter()` with the element copied at the top of the body"),
+              Rewrite("\t\t\t\t\tresult.push_str(&verif_fmt_u64(\"{:02X}\", (byte) as u64));", "\t\t\t\t\tlet byte = *verif_ref_byte;\n\t\t\t\t\tresult.push_str(&verif_fmt_u64(\"{:02X}\", (byte) as u64));", rule="R26", why="element copy of the rewritten `.copied()`")],
+    loops={1: Loop(invariant=[
+        C("state", "accum_bytes@ == bytes && it.index@ <= bytes.len() && bytes.len() <= 255"),
+        C("record_so_far", "result@ =~= base + \":\"@ + hex2(bytes.len() as int) + hex2(hi) + hex2(lo) + \"00\"@ + hex_bytes(bytes, it.index@ as int)"),
+        C("checksum_so_far", "checksum as int == (bytes.len() + hi + lo + byte_sum(bytes, it.index@ as int)) % 256"),
+    ], before="\t\t\t\tlet ghost hi = (addr / 256) % 256; let ghost lo = addr % 256;",
+       body_start="\t\t\t\t\tproof { lemma_byte_sum_bound(bytes, it.index@ as int); }")},
+    inserts=[
+        Insert("\t\t\t\tlet addr_hi =", """\t\t\t\tlet ghost addr = *accum_index as int / address_unit as int;
+\t\t\t\tlet ghost bytes = accum_bytes@;
+\t\t\t\tlet ghost base = result@;
+\t\t\t\tproof {
+\t\t\t\t\tlet a: usize = *accum_index / address_unit;
+\t\t\t\t\tlet n: usize = accum_bytes.len();
+\t\t\t\t\tassert(((a >> 8usize) as u8) as int == (a as int / 256) % 256) by (bit_vector);
+\t\t\t\t\tassert((a as u8) as int == a as int % 256) by (bit_vector);
+\t\t\t\t\tassert(n <= 255 ==> (n as u8) as int == n as int) by (bit_vector);
+\t\t\t\t\treveal_strlit(":"); reveal_strlit("00"); reveal_strlit("\\n");
+\t\t\t\t\tlemma_byte_sum_bound(bytes, bytes.len() as int);
+\t\t\t\t}
+""", where="before"),
+        Insert("\t\t\t\tresult.push('\\n');", """\t\t\t\tproof {
+\t\t\t\t\tlet c: u8 = checksum;
+\t\t\t\t\tassert(((!c).wrapping_add(1u8)) as int == (256 - c as int) % 256) by (bit_vector);
+\t\t\t\t}
+""", where="before"),
+    ],
+)
+
+AU = "address_unit as int"
+intelhex = Fn(F, "format_intelhex", impl="util::BitVec", impl_header="BitVec", slot="util", ret="res", key="BitVec::format_intelhex", props=["C11", "C03", "C19"],
+    lift={"closure": "flush_bytes", "captures": CAPS, "part": "parent"},
+    requires=[C("wf", "self.wf()"), C("unit_positive", "address_unit > 0", ["C03"]), C("spans_fit", "spans_fit8(self.spans@)", ["C19"]),
+              C("spans_fit_get_blocks", "forall|j: int| 0 <= j < self.spans@.len() ==> (#[trigger] self.spans@[j]).offset is Some ==> self.spans@[j].offset->0 + self.spans@[j].size <= usize::MAX", ["C19"])],
+    ensures=[C("records_carry_every_block_in_order", "res@ == blocks_text(self.v(), %s, spec_blocks(self.spans@), spec_blocks(self.spans@).len() as int) + \":00000001FF\"@" % AU, ["C11"])],
+    rewrites=[Rewrite("for block in self.get_blocks()", "let verif_blocks = self.get_blocks();\n\t\tfor block in &verif_blocks", rule="R21",
+                      why="by-value iteration over the Vec returned by a call -> bind it and iterate by reference (the elements are only read)"),
+              Rewrite("for _ in 0..8", "for n in 0..8", rule="R11", why="unused loop variable named so the invariant can count iterations")],
+    for_to_while=[1],
+    loops={
+        1: Loop(invariant=[
+            C("blocks", "verif_vec_1@ == spec_blocks(self.spans@) && verif_next_1 <= verif_vec_1@.len() && blocks_fit8(verif_vec_1@) && self.wf() && address_unit > 0"),
+            C("text_so_far", "result@ =~= blocks_text(self.v(), %s, spec_blocks(self.spans@), verif_next_1 as int)" % AU),
+        ], decreases="verif_vec_1@.len() - verif_next_1",
+           body_start=" let ghost base1 = result@;"),
+        2: Loop(invariant=[
+            C("consts", "self.wf() && address_unit > 0 && block.offset + block.size + 16 <= usize::MAX"),
+            C("position", "nrec >= 0 && nread >= 0 && read_index == block.offset + 8 * nread && accum_index == block.offset + 256 * nrec && 32 * nrec <= nread && nread - 32 * nrec < 32 && (read_index < block.offset + block.size ==> 8 * nread < block.size) && 8 * nread < block.size + 8"),
+            C("buffer", "accum_bytes@ =~= block_bytes(self.v(), block.offset as int, 32 * nrec, nread)"),
+            C("records_so_far", "result@ =~= base1 + block_records(self.v(), %s, block.offset as int, ((block.size + 7) / 8) as int, nrec)" % AU),
+        ], decreases="block.offset + block.size + 8 - read_index",
+           before="\t\t\tlet ghost mut nread: int = 0; let ghost mut nrec: int = 0;",
+           body_end="""\t\t\t\tproof {
+    let nb = ((block.size + 7) / 8) as int;
+    assert(nread + 1 <= nb);
+    assert(pushed =~= block_bytes(self.v(), block.offset as int, 32 * nrec, nread + 1));
+    if accum_bytes@.len() == 0 {
+        assert(result@ == res_before + hex_record((block.offset + 256 * nrec) / address_unit as int, pushed));
+        assert(nread + 1 == 32 * nrec + 32);
+        assert(imin(32 * (nrec + 1), nb) == nread + 1);
+        assert(block_bytes(self.v(), block.offset as int, 32 * nrec, nread + 1) =~= block_bytes(self.v(), block.offset as int, 32 * (nrec + 1 - 1), imin(32 * (nrec + 1), nb)));
+        assert(block_records(self.v(), address_unit as int, block.offset as int, nb, nrec + 1) == block_records(self.v(), address_unit as int, block.offset as int, nb, nrec)
+            + hex_record((block.offset + 256 * nrec) / address_unit as int, block_bytes(self.v(), block.offset as int, 32 * nrec, imin(32 * (nrec + 1), nb))));
+        nrec = nrec + 1;
+    }
+    nread = nread + 1;
+}"""),
+        3: Loop(invariant=[
+            C("bits", "n <= 8 && self.wf() && read_index as int == start + n && start + 16 <= usize::MAX && byte as int == acc(self.v(), start as int, n as int)"),
+        ], body_start="                proof { lemma_acc_bound(self.v(), start as int, n as int); vstd::arithmetic::power2::lemma2_to64(); if n < 8 { vstd::arithmetic::power2::lemma_pow2_strictly_increases(n as nat, 8); } if n < 7 { vstd::arithmetic::power2::lemma_pow2_strictly_increases(n as nat, 7); } let ghost b0: u8 = if bit_of(self.v(), read_index as nat) { 1 } else { 0 }; lemma_shift_or(byte, b0); }"),
+    },
+    inserts=[Insert("\t\t\t\tlet mut byte: u8 = 0;", "\t\t\t\tlet ghost start = read_index;\n", where="before"),
+             Insert("\t\t\t\taccum_bytes.push(byte);\n", "\t\t\t\tlet ghost pushed = accum_bytes@; let ghost res_before = result@;\n", where="after")],
 )
 
 UNIT = Unit(
@@ -162,3 +252,15 @@ UNIT = Unit(
     serves=["C12", "C03", "C19"],
     description="util::BitVec listings (address spans, annotated, Turing Complete) against functional specs of their rows",
 )
+
+
+UNIT_HEX = Unit(
+    "U-intelhex", "u_listing/skeleton.rs",
+    items=cb.items("stub", "util", only=["set_bit", "get_bit"]) + bv.items("stub", "util", only=["read_bit", "len"]) + [
+        Type(uc.FS, "struct", "Span", slot="diagn", derive="drop"),
+        get_blocks.as_stub("util"), flush, intelhex,
+    ],
+    serves=["C11", "C03", "C19"],
+    description="util::BitVec::format_intelhex (with its record-writing closure lifted to a function, R25)",
+)
+UNITS = [UNIT, UNIT_HEX]
